@@ -331,6 +331,31 @@ pub fn interfere(x: &str, sh: &Shared, rng: &mut Rng) {
 				let _ = to_crl_params(&c).unwrap().signed_by(&sh.issuer, &sh.k_ed.kp);
 			}
 		},
+		"refused-late" => {
+			let mut c = crl_template("crl/1");
+			c["revoked"][0]["serial"] = json!([0xde, 0xad]);
+			c["revoked"][2]["invalidity"] = json!({"k": "some", "t": {"y": -1, "mo": 6, "d": 1, "h": 0, "mi": 0, "s": 0, "ns": 0, "off": 0}});
+			if let Ok(p) = to_crl_params(&c) {
+				let _ = p.signed_by(&sh.issuer, &sh.k_ed.kp);
+			}
+			let mut c2 = crl_template("crl/2");
+			c2["revoked"][1]["time"] = json!({"y": 9999, "mo": 12, "d": 31, "h": 23, "mi": 59, "s": 59, "ns": 0, "off": -3600});
+			if let Ok(p) = to_crl_params(&c2) {
+				let _ = p.signed_by(&sh.issuer, &sh.k_ed.kp);
+			}
+			let mut p = cert_template("cert-issued/1");
+			p["serial"] = json!({"k": "given", "b": [0xde, 0xad]});
+			p["crldp"] = json!([[text("http://crl.example/a")], [text("http://crl.example/\u{e9}")]]);
+			if let Ok(p) = to_params(&p) {
+				let _ = p.signed_by(&sh.k_p256.kp, &sh.issuer, &sh.k_ed.kp);
+			}
+			let mut q = cert_template("csr/1");
+			q["serial"] = json!({"k": "given", "b": [0xde, 0xad]});
+			q["isCa"] = json!({"k": "Ca", "pl": {"k": "none", "n": 0}});
+			if let Ok(q) = to_params(&q) {
+				let _ = q.serialize_request(&sh.k_ed.kp);
+			}
+		},
 		"gen-other" => {
 			if let Ok(k) = live_key("tmp", "ed25519", "remote", rng) {
 				let mut p = base_params_desc();
